@@ -53,13 +53,13 @@ CLAIMED = {
              text="Decides on the code generator (i.e. for every program it will ever expand) that and-groups wait for all heads on success and fail at once, or-groups succeed at once and fail only after all alternatives failed, that every WaitForHeads counts exactly the heads of its fork, every forked branch returns to the end label, and failure handlers are pushed/popped in balance on every path. DNF equivalence for all formulas and the run-time merge dynamics are not decided.",
              ref="DESIGN.md C07"),
  "C12": dict(tech="abstract interpretation of both code generators: emit2 (Colang 2.x expanders: label/fork closure, scope pairing on the generated CFG), dispatch-exhaustiveness tables (grammar ops / element classes / slide branches), emit1 (Colang 1.0: affine identities of relative jump offsets)",
-             text="Decides the property on the generators rather than on sampled programs: every label/fork reference of every template resolves inside the template, scopes are closed on every exit (F6: `when...else` - known finding), composite elements and ops never survive the fixpoint, break/continue labels are filled, and the Colang 1.0 offsets land on their intended targets. Facts about individual shipped .co files are subsumed by the generator-level result.",
+             text="Decides the property on the generators rather than on sampled programs: every label/fork reference of every template resolves inside the template, scopes are closed on every exit (F6: `when...else` - known finding), composite elements and ops never survive the fixpoint, break/continue labels are filled without writing per-compilation labels into the shared parsed elements (F23, repaired), the label table has one writer and every flow config entering a State has passed it, the Colang 1.0 offsets land on their intended targets and no later compiler pass moves an element. Facts about individual shipped .co files are subsumed by the generator-level result.",
              ref="DESIGN.md C12"),
  "C14": dict(tech="affine layout interpretation (emit1) of the Colang 1.0 offset computer with symbolic block lengths, case split on else, universally quantified loop index, unrolled branches; offset-key writer/reader agreement; opcode exhaustiveness; effect analysis (fresh state, stores into shared flow elements only under never-read keys) over the call graph of compute_next_steps",
-             text="Decides, as algebraic identities valid for all block lengths, that every relative offset the Colang 1.0 compiler emits for if/else, while/break/continue, branch blocks and gotos equals the distance to the element the source construct designates; that the runtime reads exactly the keys the compiler writes; that every emitted element type has a consumer; and that deciding the next step cannot observably mutate shared configuration. The replay semantics of compute_next_state is not decided.",
+             text="Decides, as algebraic identities valid for all block lengths, that every relative offset the Colang 1.0 compiler emits for if/else, while/break/continue, branch blocks and gotos equals the distance to the element the source construct designates; that the passes after the offset computation keep every element at its index; that the runtime reads exactly the keys the compiler writes; that every emitted element type has a consumer; and that deciding the next step cannot observably mutate shared configuration. The replay semantics of compute_next_state is not decided.",
              ref="DESIGN.md C14"),
- "C08": dict(tech="protocol-constant agreement across components: positional key producer (zero-based counter, +1 after use) vs consumers (plain enumerate index) ; binding-order shape of create_flow_instance; four-site agreement of the return-value channel; who-may-assign a foreign context",
-             text="Decides only the protocol facts three components must agree on: the `$<n>` key format and base between the transformer and every consumer, named-before-default-before-positional binding with the default evaluated only when absent, the Return -> _return_value -> FlowFinished.return_value -> await-assignment channel, and that a context is shared only under the explicit `context` argument while every new instance gets fresh containers. Value identity for all signatures is not decided.",
+ "C08": dict(tech="protocol-constant agreement across components: positional key producer (zero-based counter, +1 after use) vs consumers (plain enumerate index) ; binding-order shape of create_flow_instance; four-site agreement of the return-value channel; value comparison in every clause that re-uses an activated reference instance; who-may-assign a foreign context; who-may-write module-level state in the interpreter modules",
+             text="Decides only the protocol facts three components must agree on: the `$<n>` key format and base between the transformer and every consumer, named-before-default-before-positional binding with the default evaluated only when absent, the Return -> _return_value -> FlowFinished.return_value -> await-assignment channel, that an `activate` call re-uses an instance only when named, positional and defaulted values all compare equal, that a context is shared only under the explicit `context` argument while every new instance gets fresh containers, and that no module-level cache can hand one instance's evaluated (mutable) default to another. Value identity for all signatures is not decided.",
              ref="DESIGN.md C08"),
 }
 NA = {
